@@ -14,7 +14,7 @@ for sd in "${dirs[@]}"; do
   git -C /repo worktree add -q --detach "$d/repo" HEAD || { echo "$name worktree-failed"; continue; }
   cp "$sd/demo_test.go" "$d/repo/zz_seeded_demo_test.go"
   clean=$(cd "$d/repo" && go test -vet=off -count=1 -run 'Demo|Seeded|C[0-9][0-9]' . >/dev/null 2>&1; echo $?)
-  if ! (cd "$d/repo" && git apply "$V/$sd/patch.diff" 2>/dev/null); then
+  if ! (cd "$d/repo" && (git apply "$V/$sd/patch.diff" 2>/dev/null || git apply -3 "$V/$sd/patch.diff" >/dev/null 2>&1)); then
     echo "$name patch=DOES-NOT-APPLY"; git -C /repo worktree remove --force "$d/repo"; rm -rf "$d"; continue
   fi
   mut=$(cd "$d/repo" && go test -vet=off -count=1 -run 'Demo|Seeded|C[0-9][0-9]' . >/dev/null 2>&1; echo $?)
